@@ -261,6 +261,19 @@ def run(res, tier, seed):
         elif k < 6: method = rng.choice(['get', 'options', 'OPTIONS ', ''])
         get(ff, data, random_header(rng, L), has, method)
 
+    # 2a. files larger than one 64 KiB I/O block: ranges whose LENGTH is k*65536 + {-1, 0, 1, 2} (a blockwise
+    #     reader that mishandles the last block), from several starts, alone and inside a multi-range header
+    for L in ([65537, 70001, 131073, 200000] if tier == 'quick' else [65537, 65538, 70001, 131072, 131073, 131074, 200000, 262145, 400000]):
+        ff, data = filefield(L, None)
+        for k in (1, 2, 3, 4, 6):
+            for d in (-1, 0, 1, 2):
+                n = k * 65536 + d
+                for a in (0, 1, 1000, L - n):
+                    if a < 0 or a + n > L: continue
+                    get(ff, data, 'bytes=%d-%d' % (a, a + n - 1), kind='block-boundary')
+                    if d == 1: get(ff, data, 'bytes=0-0, %d-%d ,5-9' % (a, a + n - 1), kind='block-boundary-multi')
+        get(ff, data, 'bytes=0-', kind='block-boundary'); get(ff, data, 'bytes=-%d' % (65537,), kind='block-boundary')
+
     # 2b. headers whose ranges ALL lie inside the file: 1..6 specs, optional white space
     def inside_spec(L):
         k = rng.below(3)
